@@ -276,14 +276,46 @@ theorem filterNeighbors_spec (d : Nat) (chunks : List Chunk) (e1 : Nat) (e1n : L
 
 /-! ## `sort_unstable` + `dedup` -/
 
+theorem mem_insertNat {x y : Nat} {l : List Nat} : y ∈ insertNat x l ↔ y = x ∨ y ∈ l := by
+  induction l with
+  | nil => simp [insertNat]
+  | cons z zs ih =>
+    simp only [insertNat]
+    split
+    · simp
+    · simp only [List.mem_cons, ih]
+      grind
+
 theorem mem_sortNat {x : Nat} {l : List Nat} : x ∈ sortNat l ↔ x ∈ l := by
-  simp [sortNat, List.mem_mergeSort]
+  induction l with
+  | nil => simp [sortNat]
+  | cons z zs ih => simp [sortNat, mem_insertNat, ih]
+
+theorem insertNat_sorted (x : Nat) {l : List Nat} (h : l.Pairwise (· ≤ ·)) :
+    (insertNat x l).Pairwise (· ≤ ·) := by
+  induction l with
+  | nil => simp [insertNat]
+  | cons z zs ih =>
+    simp only [insertNat]
+    rw [List.pairwise_cons] at h
+    split
+    · next hle =>
+      refine List.pairwise_cons.mpr ⟨?_, List.pairwise_cons.mpr h⟩
+      intro y hy
+      rcases List.mem_cons.mp hy with rfl | hy
+      · exact hle
+      · exact Nat.le_trans hle (h.1 y hy)
+    · next hgt =>
+      refine List.pairwise_cons.mpr ⟨?_, ih h.2⟩
+      intro y hy
+      rcases mem_insertNat.mp hy with rfl | hy
+      · omega
+      · exact h.1 y hy
 
 theorem sortNat_sorted (l : List Nat) : (sortNat l).Pairwise (· ≤ ·) := by
-  have := List.pairwise_mergeSort (le := fun a b : Nat => decide (a ≤ b))
-    (by intro a b c; simp only [decide_eq_true_eq]; omega)
-    (by intro a b; simp only [Bool.or_eq_true, decide_eq_true_eq]; omega) l
-  simpa [sortNat] using this
+  induction l with
+  | nil => simp [sortNat]
+  | cons z zs ih => exact insertNat_sorted z ih
 
 theorem mem_dedup {x : Nat} {l : List Nat} : x ∈ dedup l ↔ x ∈ l := by
   fun_induction dedup l with
@@ -568,11 +600,11 @@ the specified rows. -/
 theorem runWith_eq (sched : List (Nat × List Nat) → List (Nat × List Nat))
     (hs : ∀ ws, (sched ws).Perm ws) (m : Mesh) (d : Nat) (hwf : m.WF)
     (hd : topDim m = some d) (hv : CellsValid m d) :
-    ∃ t, IsIndex (elements d m) t ∧
+    ∃ t, nodeToElements m.nodeCount (elements d m) = some t ∧ IsIndex (elements d m) t ∧
       runWith sched m =
         .ok (assemble ((List.range (elements d m).length).map (rowSpec d (elements d m) t))) := by
   obtain ⟨t, h1, h2, h3⟩ := nodeToElements_spec m.nodeCount (elements d m) hv
-  refine ⟨t, h3, ?_⟩
+  refine ⟨t, h1, h3, ?_⟩
   have hel := elements_eq_allElems d m hwf
   have hrows := rowsWith_spec sched hs d (keptBlocks d m) (aligned_of_wf d m hwf) t
     (by rw [← hel]; exact h3) (by rw [← hel, h2]; exact hv)
@@ -594,7 +626,7 @@ theorem run_ok_eq (m : Mesh) (d : Nat) (g : Csr) (hwf : m.WF) (hd : topDim m = s
     (h : run m = .ok g) :
     ∃ t, IsIndex (elements d m) t ∧
       g = assemble ((List.range (elements d m).length).map (rowSpec d (elements d m) t)) := by
-  obtain ⟨t, ht, heq⟩ := runWith_eq id (fun _ => List.Perm.refl _) m d hwf hd
+  obtain ⟨t, _, ht, heq⟩ := runWith_eq id (fun _ => List.Perm.refl _) m d hwf hd
     (runWith_ok_valid id m d g hd h)
   refine ⟨t, ht, ?_⟩
   unfold run at h
@@ -646,5 +678,72 @@ theorem commonCount_comm {a b : List Nat} (ha : a.Nodup) (hb : b.Nodup) :
   intro x
   simp only [List.mem_filter, List.contains_eq_mem, decide_eq_true_eq]
   exact And.comm
+
+/-! ## Schedules -/
+
+/-- The output does not depend on the order in which the pool performs the
+writes to `indice_locks` (panics included). -/
+theorem runWith_eq_run (sched : List (Nat × List Nat) → List (Nat × List Nat))
+    (hs : ∀ ws, (sched ws).Perm ws) (m : Mesh) (hwf : m.WF) : runWith sched m = run m := by
+  cases hd : topDim m with
+  | none => simp [run, runWith, hd]
+  | some d =>
+    cases hn : nodeToElements m.nodeCount (elements d m) with
+    | none => simp [run, runWith, hd, hn]
+    | some t =>
+      have hv : CellsValid m d := nodeToElements_some_valid _ _ _ hn
+      obtain ⟨t1, a1, _, e1⟩ := runWith_eq sched hs m d hwf hd hv
+      obtain ⟨t2, a2, _, e2⟩ := runWith_eq id (fun _ => List.Perm.refl _) m d hwf hd hv
+      have : t1 = t2 := Option.some.inj (a1.symm.trans a2)
+      subst this
+      rw [e1, run, e2]
+
+/-! ## Counts -/
+
+theorem length_allElems (bs : List Block) : (allElems bs).length = (bs.map Block.count).sum := by
+  induction bs with
+  | nil => rfl
+  | cons b bs ih => simp [allElems_cons, chunksExact_length, ih, Block.count]
+
+theorem not_ignored_eq (d : Nat) (hd : d ≠ 1) (ty : ElType) : (!ignored d ty) = (ty.dim == d) := by
+  by_cases h : ty.dim = d
+  · have hne : (ty == ElType.edge) = false := by
+      cases ty <;> first | rfl | exact absurd h.symm hd
+    simp [ignored, h, hne]
+  · have h1 : (ty.dim != d) = true := by simpa using h
+    have h2 : (ty.dim == d) = false := by simpa using h
+    simp [ignored, h1, h2]
+
+theorem keptBlocks_eq_of_ne_one (d : Nat) (hd : d ≠ 1) (m : Mesh) :
+    keptBlocks d m = m.blocks.filter (fun b => b.ty.dim == d) := by
+  unfold keptBlocks
+  congr 1
+  funext b
+  exact not_ignored_eq d hd b.ty
+
+theorem usedElementCount_eq (m : Mesh) (d : Nat) (hwf : m.WF) (hd : topDim m = some d)
+    (h1 : d ≠ 1) : usedElementCount m = (elements d m).length := by
+  rw [elements_eq_allElems d m hwf, length_allElems, keptBlocks_eq_of_ne_one d h1]
+  simp [usedElementCount, hd]
+
+/-! ## Rows of the returned matrix -/
+
+/-- Nodes of cell `i`: the `i`-th element of the highest dimension `d`, edges
+excluded, in block order. -/
+def cell (m : Mesh) (d i : Nat) : List Nat := nodesOf (elements d m) i
+
+/-- Number of cells. -/
+def cellCount (m : Mesh) (d : Nat) : Nat := (elements d m).length
+
+theorem rows_of_run (m : Mesh) (d : Nat) (g : Csr) (hwf : m.WF) (hd : topDim m = some d)
+    (h : run m = .ok g) :
+    ∃ t, IsIndex (elements d m) t ∧ g.size = cellCount m d ∧
+      ∀ i, i < g.size → g.row i = rowSpec d (elements d m) t i := by
+  obtain ⟨t, ht, rfl⟩ := run_ok_eq m d g hwf hd h
+  refine ⟨t, ht, by simp [size_assemble, cellCount], ?_⟩
+  intro i hi
+  rw [size_assemble] at hi
+  rw [row_assemble _ i hi]
+  simp
 
 end Coupe.Dual
